@@ -102,6 +102,7 @@ def run(ctx):
         if ans is not None and (ans.get("ok") in (None, "nan") or [Fraction(x) for x in ans["ok"]] != want):
             ctx.mismatch("model Ds.MC.run differs from the estimator by definition", case, impl=res, model=ans, spec=[str(x) for x in want], failing_input=False,
                          broken="theorem C04_estimator / corr:Ds.MC.run")
+        tables.check_translated_walk(ctx, case, exprs, n_units, table, null, Fraction(10 ** 6), Fraction(1, 10), 0, perms, res, 16)
         if all_perms:
             sh = spec.shapley(n_units, lambda S: tables.value_of(table, tables.rows_present(exprs, [1 if u in S else 0 for u in range(n_units)]), null))
             if not ctx.vec_close(res, sh, 16):
